@@ -157,7 +157,10 @@ Definition insert_ns (r : nsrule) (idx : option nat) (inorder : bool) (sh : shee
   | inr e => (sh, Raise e)
   | inl i =>
       if same_binding (view sh) r then (sh, Ok)              (* "no doublettes" *)
-      else clean (insert_at i (RNs r) sh)
+      else match clean (insert_at i (RNs r) sh) with
+           | (_, Raise e) => (sh, Raise e)     (* a refusal of _cleanNamespaces is rolled back: the rule list is restored *)
+           | res => res
+           end
   end.
 
 (* rule objects: CSSNamespaceRule(prefix=, namespaceURI=) has a prefix item even for '' ; a parsed rule has not *)
